@@ -1,0 +1,32 @@
+//go:build verif
+
+package consensus
+
+import (
+	"time"
+
+	cstypes "github.com/kardiachain/go-kardia/consensus/types"
+	"github.com/kardiachain/go-kardia/lib/p2p"
+)
+
+// Add-only accessors for the out-of-tree verification harness (/verif, family `wal`, property C15):
+// the two unexported WAL message types are opaque outside this package, the harness has to read the
+// fields of what the decoder returned.
+
+// VerifTimeoutFields returns the fields of a timeoutInfo WAL message.
+func VerifTimeoutFields(m WALMessage) (d time.Duration, h uint64, r uint32, s cstypes.RoundStepType, ok bool) {
+	ti, ok := m.(timeoutInfo)
+	if !ok {
+		return
+	}
+	return ti.Duration, ti.Height, ti.Round, ti.Step, true
+}
+
+// VerifMsgInfoFields returns the fields of a msgInfo WAL message.
+func VerifMsgInfoFields(m WALMessage) (msg Message, peer p2p.ID, ok bool) {
+	mi, ok := m.(msgInfo)
+	if !ok {
+		return
+	}
+	return mi.Msg, mi.PeerID, true
+}
